@@ -21,7 +21,7 @@ func toModelRules(rs []drive.Rule) []model.RMWRule {
 }
 
 func runC13(run *common.Run) {
-	run.Rule = "case = one program on one engine: a prior row state (cells at clock-1ms / clock / clock+1h / 0, values of length 0,1,7,8,9) followed by 2-6 ReadModifyWriteRow requests with 0-5 rules (repeated columns, mixed append/increment, extreme amounts, unknown family at any position) under a moving injected clock (non-millisecond values, backward steps); after each request the response row and a full re-read are compared with the RMW model. Non-trivial = at least one request hit a prior cell in the future of the clock and one request was rejected or wrapped around; distinct by program x engine."
+	run.Rule = "case = one program on one engine: a prior row state (cells at clock-1ms / clock / clock+1h / 0, values of length 0,1,7,8,9) followed by 2-6 ReadModifyWriteRow requests with 0-5 rules (repeated columns, mixed append/increment, extreme amounts, unknown family at any position; every third program uses families that are prefixes of one another with qualifiers whose concatenations collide) under a moving injected clock (non-millisecond values, backward steps); after each request the response row and a full re-read are compared with the RMW model. Non-trivial = at least one request hit a prior cell in the future of the clock and one request was rejected or wrapped around; distinct by program x engine."
 	run.Assumptions = []string{"an increment on an existing cell whose value is empty may fail without change or count as 0", "family order in the response row is not compared", "a request with no rules may be rejected or be a no-op"}
 	j := common.NewJournal("C13")
 	nprog := run.N(1500, 30000)
@@ -45,14 +45,22 @@ func c13Program(run *common.Run, prog int, engine string, idx int) {
 		return
 	}
 	defer srv.Close(true)
-	table := drive.MustTable(srv.Admin, "t", gen.Fams...)
-	m := model.NewTable(gen.Fams...)
+	fams := gen.Fams
+	quals := gen.Quals[:3]
+	if prog%3 == 2 {
+		// families that are prefixes of one another and qualifiers that make (family, qualifier) pairs collide when
+		// they are glued together without a separator: f+1q = f1+q = f1q+"", f+1 = f1+""
+		fams = []string{"f", "f1", "f1q"}
+		quals = []string{"", "q", "1q", "1"}
+		run.Count("programs_with_prefix_related_families", 1)
+	}
+	table := drive.MustTable(srv.Admin, "t", fams...)
+	m := model.NewTable(fams...)
 	var steps []string
 	fail := func(what string) {
 		run.Violation("prog", idx, what, map[string]any{"engine": engine, "steps": steps})
 	}
 	keys := []string{"k", "k\x00"}
-	quals := gen.Quals[:3]
 	// prior state
 	var future, rejectedOrWrapped bool
 	for _, k := range keys {
@@ -77,7 +85,7 @@ func c13Program(run *common.Run, prog int, engine string, idx int) {
 			default:
 				val = string([]byte{0, 0, 0, 0, 0, 0, 0, byte(r.Intn(200))})
 			}
-			muts = append(muts, model.Mut{Kind: model.SetCell, Fam: common.Pick(r, gen.Fams), Qual: common.Pick(r, quals), TS: ts, Val: val})
+			muts = append(muts, model.Mut{Kind: model.SetCell, Fam: common.Pick(r, fams), Qual: common.Pick(r, quals), TS: ts, Val: val})
 		}
 		if len(muts) == 0 {
 			continue
@@ -109,6 +117,9 @@ func c13Program(run *common.Run, prog int, engine string, idx int) {
 		}
 		for i := range rules {
 			rules[i].Qual = common.Pick(r, quals)
+			if rules[i].Fam != gen.UnknownFam {
+				rules[i].Fam = common.Pick(r, fams)
+			}
 		}
 		for _, ru := range rules {
 			for ts := range m.Rows[k][ru.Fam][ru.Qual] {
